@@ -68,7 +68,7 @@ def _worker(args):
 
 
 def write_replay(prop, violation):
-    d = os.path.join(ROOT, 'replays', prop)
+    d = os.path.join(ROOT, 'work', 'replays-scratch', prop) if os.environ.get('VERIF_REPO_SRC') else os.path.join(ROOT, 'replays', prop)
     os.makedirs(d, exist_ok=True)
     body = json.dumps({'property': prop, 'what': violation['what'], 'bucket': violation['bucket'],
                        'detail': violation['detail']}, indent=1, sort_keys=True, default=repr)
@@ -227,8 +227,10 @@ def main(argv=None):
             'wall_s': round(wall, 2),
             'violations': len(violations),
         }
-        os.makedirs(os.path.join(ROOT, 'evidence'), exist_ok=True)
-        with open(os.path.join(ROOT, 'evidence', prop + '.json'), 'w', encoding='utf-8') as fh:
+        # runs against a scratch copy (sensitivity tests with VERIF_REPO_SRC) must not overwrite the evidence of /repo
+        evdir = os.path.join(ROOT, 'work', 'evidence-scratch') if os.environ.get('VERIF_REPO_SRC') else os.path.join(ROOT, 'evidence')
+        os.makedirs(evdir, exist_ok=True)
+        with open(os.path.join(evdir, prop + '.json'), 'w', encoding='utf-8') as fh:
             json.dump(evidence, fh, indent=1, sort_keys=True, default=repr)
             fh.write('\n')
     except HarnessError as e:
